@@ -89,13 +89,13 @@ func hasRerun(p *Plan) bool {
 
 // callRec is what one call of an interrupted history returned.
 type callRec struct {
-	idx      int
-	paradigm int
-	res      *CallResult
-	info     *compose.InterruptInfo
-	setsDone int // store Set calls made during this call
-	firstSeq int
-	lastSeq  int
+	idx                 int
+	paradigm            int
+	res                 *CallResult
+	info                *compose.InterruptInfo
+	setsDone            int // store Set calls made during this call
+	firstSeq            int
+	lastSeq             int
 	firstStep, lastStep int
 }
 
@@ -117,6 +117,9 @@ func runInterrupts(t *kernel.Tape, opt core.Opts, only string) *core.Outcome {
 	p := Generate(t, g)
 	decorateInterrupts(t, p, true)
 	in := M{"in": fmt.Sprintf("x%d", t.Plan(3))}
+	if t.PlanBool(40) {
+		in["np"] = (*nilTok)(nil) // a typed nil pointer in an interface-typed slot
+	}
 	withID := !t.PlanBool(8)
 	failSet := -1
 	if only == "C06" && t.PlanBool(12) {
@@ -256,6 +259,11 @@ func runInterrupts(t *kernel.Tape, opt core.Opts, only string) *core.Outcome {
 				}
 				if st.N != total {
 					viol("C05/state-lost-in-round-trip", fmt.Sprintf("%d handler/ProcessState invocations touched the top-level state across %d calls, the final counter is %d", total, len(calls), st.N))
+				}
+				// nothing that completed before an interrupt runs again: the history as a whole makes
+				// no more handler / ProcessState invocations than the uninterrupted run
+				if execsComparable(p, mr) && total > mr.StateN[""] {
+					viol("C05/state-handler-executed-again", fmt.Sprintf("the uninterrupted run makes %d handler/ProcessState invocations on the top-level state, the history with %d interrupts made %d:\n%s", mr.StateN[""], nInt, total, strings.Join(env.HandlerLog, "\n")))
 				}
 			}
 		}
@@ -532,16 +540,16 @@ func splitPath(full string) (string, string) {
 func init() {
 	core.Register(&core.Profile{
 		ID: "C05", Engine: "graphsim", Quick: 1500, Thorough: 40000, ThoroughSeeds: 3,
-		Run:    func(t *kernel.Tape, o core.Opts) *core.Outcome { return runInterrupts(t, o, "C05") },
-		Rule:   "each run draws a plan in any mode, interrupt-before/after sets at every nesting level, nodes that answer InterruptAndRerun on their first 1-2 attempts (their pre-handler rebuilds the input from state), a paradigm per call, and one schedule; the history is: call with a checkpoint id, on interrupt throw the runnable away, compile the plan again, resume through a store that keeps only bytes, until the run completes; oracle: final output, multiset of non-aborted executions and the state counter equal the uninterrupted run of the same plan (reference model), bounded number of calls",
-		Real:   append([]string{"internal/serialization (checkpoint bytes)"}, graphReal...), Stub: append([]string{"checkpoint store (in-memory byte map)"}, graphStub...),
+		Run:  func(t *kernel.Tape, o core.Opts) *core.Outcome { return runInterrupts(t, o, "C05") },
+		Rule: "each run draws a plan in any mode, interrupt-before/after sets at every nesting level, nodes that answer InterruptAndRerun on their first 1-2 attempts (their pre-handler rebuilds the input from state), a paradigm per call, and one schedule; the history is: call with a checkpoint id, on interrupt throw the runnable away, compile the plan again, resume through a store that keeps only bytes, until the run completes; oracle: final output, multiset of non-aborted executions and the state counter equal the uninterrupted run of the same plan (reference model), bounded number of calls",
+		Real: append([]string{"internal/serialization (checkpoint bytes)"}, graphReal...), Stub: append([]string{"checkpoint store (in-memory byte map)"}, graphStub...),
 		Faults: []string{"interrupt before", "interrupt after", "interrupt and rerun", "nested interrupt", "repeated interrupts", "restart with only durable bytes", "paradigm change across resume"},
 	})
 	core.Register(&core.Profile{
 		ID: "C06", Engine: "graphsim", Quick: 1500, Thorough: 40000, ThoroughSeeds: 3,
-		Run:    func(t *kernel.Tape, o core.Opts) *core.Outcome { return runInterrupts(t, o, "C06") },
-		Rule:   "the histories of C05 (plus histories without a checkpoint id and with a store whose k-th Set fails) observed by monitors: an interrupt-before node starts only in a call that resumes an interrupt reporting it, and at most once per call; after an interrupt-after node completes none of its successors starts in that call; reported before/after/rerun lists (at every nesting level) match the log; a checkpoint is written in a call exactly when the call returns an interrupt and an id was supplied",
-		Real:   append([]string{"internal/serialization (checkpoint bytes)"}, graphReal...), Stub: append([]string{"checkpoint store (in-memory byte map with injected Set errors)"}, graphStub...),
+		Run:  func(t *kernel.Tape, o core.Opts) *core.Outcome { return runInterrupts(t, o, "C06") },
+		Rule: "the histories of C05 (plus histories without a checkpoint id and with a store whose k-th Set fails) observed by monitors: an interrupt-before node starts only in a call that resumes an interrupt reporting it, and at most once per call; after an interrupt-after node completes none of its successors starts in that call; reported before/after/rerun lists (at every nesting level) match the log; a checkpoint is written in a call exactly when the call returns an interrupt and an id was supplied",
+		Real: append([]string{"internal/serialization (checkpoint bytes)"}, graphReal...), Stub: append([]string{"checkpoint store (in-memory byte map with injected Set errors)"}, graphStub...),
 		Faults: []string{"interrupt before", "interrupt after", "interrupt and rerun", "nested interrupt", "store Set error", "no checkpoint id"},
 	})
 }
